@@ -46,3 +46,8 @@ package codec
 
 //@ func CreateAddress props C28 C17
 //@   ensures result[0] == typeID && forall j int :: 0 <= j && j < 32 ==> result[1 + j] == id[j]
+
+// CreateAddress (C17): the address is the scheme's type id followed by the 32-byte id
+//@ func CreateAddress props C17
+//@   ensures result[0] == typeID
+//@   ensures forall j int :: 0 <= j && j < 32 ==> result[1 + j] == id[j]
